@@ -98,8 +98,17 @@ h_build_treeseq(tsk_table_collection_t *t, tsk_treeseq_t *ts, h_tables_t *T)
         sym_assume(ret == j);
         continue;
 #endif
+#ifdef PIN_P
+        {
+            /* structure pinned by the job, coordinates stay symbolic */
+            static const tsk_id_t pin_p[] = PIN_P, pin_c[] = PIN_C;
+            T->parent[j] = pin_p[j];
+            T->child[j] = pin_c[j];
+        }
+#else
         T->parent[j] = sym_choice(sym_nm(nm, "p", j), 1, NN - 1);
         T->child[j] = sym_choice(sym_nm(nm, "c", j), 0, NN - 1);
+#endif
         /* necessary for validity: prune concretely */
         if (!(T->time[T->child[j]] < T->time[T->parent[j]])) {
             sym_assume(0);
@@ -115,6 +124,11 @@ h_build_treeseq(tsk_table_collection_t *t, tsk_treeseq_t *ts, h_tables_t *T)
         T->left[j] = sym_f64_int(sym_nm(nm, "l", j));
         T->right[j] = sym_f64_int(sym_nm(nm, "r", j));
         sym_assume(0 <= T->left[j] && T->left[j] < T->right[j] && T->right[j] <= SEQ_L);
+#ifdef PIN_RIGHT_MASK
+        if ((PIN_RIGHT_MASK >> j) & 1) {
+            sym_assume(T->right[j] == SEQ_L); /* these edges reach the end of the genome */
+        }
+#endif
 #endif
         ret = tsk_edge_table_add_row(
             &t->edges, T->left[j], T->right[j], T->parent[j], T->child[j], NULL, 0);
